@@ -241,6 +241,28 @@ def digit_count_rule(rep, u):
             except r_mpt.Unknown:
                 rep.undecided("R-CMP", fn, "digit-count", "digit counter comparator evaluable", key(c))
                 continue
+            # the index bound evaluated before it (len < BOUND && num >= pow10lst[len]): BOUND is the number of table entries,
+            # and the table is long enough for the largest 64-bit value (20 digits)
+            entries = len(gv(u, "pow10lst") or [])
+            bound = None
+            for pb in fn.blocks[bid].preds:
+                pc = fn.blocks[pb].cond
+                p0 = core.strip_casts(pc) if pc is not None else None
+                if p0 is not None and p0.get("k") == "bin" and p0["op"] in ("<", ">") and fn.blocks[pb].succ and fn.blocks[pb].succ[0] == bid:
+                    k_ = const_val(p0["y"]) if p0["op"] == "<" else const_val(p0["x"])
+                    idx_side = p0["x"] if p0["op"] == "<" else p0["y"]
+                    if k_ is not None and key(core.strip_casts(idx_side)) == key(core.strip_casts(subs[0]["i"])):
+                        bound = k_
+            descb = "the digit counter may count up to the number of pow10lst entries (%d), enough for the 20 digits of 2^64-1" % entries
+            if bound is None:
+                rep.undecided("R-CMP", fn, "digit-count-bound", descb, "index bound not found")
+            elif bound == entries and entries >= 20:
+                rep.proved("R-CMP", fn, "digit-count-bound", descb, "bound %d" % bound)
+            elif bound > entries:
+                rep.violated("R-CMP", fn, "digit-count-bound", descb, "the bound %d lets the index pass the table's %d entries" % (bound, entries), c0.get("ln"))
+            else:
+                rep.violated("R-CMP", fn, "digit-count-bound", descb, "the counter stops at %d digits: values of %d digits and more are formatted "
+                             "with too few digits and the leading digits are written before the buffer" % (bound, bound + 1), c0.get("ln"))
             desc = "the decimal digit counter keeps counting when the number equals a power of ten (10^k has k+1 digits)"
             if eq and gt and not lt:
                 rep.proved("R-CMP", fn, "digit-count", desc, key(c0))
